@@ -140,6 +140,7 @@ class Tables(object):
         # recovery".  C13 also exercises lists that ignore it (the property
         # speaks of every listed delay), flagged by sis_unfiltered.
         self.unfiltered = bool(case.get("sis_unfiltered"))
+        self.age_rule = bool(case.get("age_rule"))
         # extra positional arguments the simulator must forward to each user function
         # (trans_time_args / rec_time_args / trans_and_rec_time_args / args): None = not used
         self.expect = {}
@@ -229,6 +230,11 @@ class Tables(object):
     def contact_ok(self, u, v, *args):
         self._args("contact", args)
         self.calls.append(("contact", u, v))
+        if self.age_rule:
+            # a rule that may answer differently when asked again: keyed by how many steps the source has
+            # already been infectious (= how often its recovery was tested), which is the same in both
+            # return modes
+            return keyed(self.seed, "ca", self.index[u], self.index[v], self.count.get(("rec", self.index[u]), 0)) < 0.45
         return keyed(self.seed, "c", self.index[u], self.index[v]) < 0.55
 
     def recovers(self, u):
